@@ -41,6 +41,18 @@ func Y() {
 	}
 }
 
+// HookS is set by the simulator's scheduler.
+var HookS func(site int)
+
+// YS is a soft yield point in a file that touches state shared between goroutines (the file
+// mentions sync., atomic. or caches.): the scheduler can spend a run's hand-offs there alone, and
+// can make two tasks meet at one such point (site: its number) and go on from there in step.
+func YS(site int) {
+	if h := HookS; h != nil {
+		h(site)
+	}
+}
+
 // Locked is called right after a lock was taken.
 func Locked() {
 	if h := LockHook; h != nil {
@@ -82,8 +94,29 @@ func instrumented(rel string) bool {
 	return true
 }
 
+// yieldName is the yield function used for the file being rewritten (Y or YS).
+var yieldName = "Y"
+
+// siteNo numbers the YS yield points of the whole copy (files are visited in lexical order).
+var siteNo = 0
+
 func yieldStmt() ast.Stmt {
-	return &ast.ExprStmt{X: &ast.CallExpr{Fun: &ast.SelectorExpr{X: ast.NewIdent("verifyield"), Sel: ast.NewIdent("Y")}}}
+	call := &ast.CallExpr{Fun: &ast.SelectorExpr{X: ast.NewIdent("verifyield"), Sel: ast.NewIdent(yieldName)}}
+	if yieldName == "YS" {
+		siteNo++
+		call.Args = []ast.Expr{&ast.BasicLit{Kind: token.INT, Value: fmt.Sprint(siteNo)}}
+	}
+	return &ast.ExprStmt{X: call}
+}
+
+// touchesSharedState: the file uses synchronisation primitives, atomics or the process-wide caches.
+func touchesSharedState(src []byte) bool {
+	for _, m := range []string{"sync.", "atomic.", "caches."} {
+		if bytes.Contains(src, []byte(m)) {
+			return true
+		}
+	}
+	return false
 }
 
 func hookStmt(name string) ast.Stmt {
@@ -129,6 +162,9 @@ func rewriteList(list []ast.Stmt) []ast.Stmt {
 	return out
 }
 
+// skipFuncLits: the visitor does not descend into this call (its function literals stay as they are).
+func skipFuncLits(*ast.CallExpr) bool { return false }
+
 func instrument(src []byte, name string) ([]byte, int, error) {
 	fset := token.NewFileSet()
 	f, err := parser.ParseFile(fset, name, src, parser.ParseComments)
@@ -136,9 +172,26 @@ func instrument(src []byte, name string) ([]byte, int, error) {
 		return nil, 0, err
 	}
 	n := 0
+	yieldName = "Y"
+	if touchesSharedState(src) {
+		yieldName = "YS"
+	}
 	clauseBlocks := map[*ast.BlockStmt]bool{} // bodies of switch/select: their lists hold clauses, not statements
 	ast.Inspect(f, func(node ast.Node) bool {
 		switch x := node.(type) {
+		case *ast.CallExpr:
+			// a comparison function handed to package sort runs a number of times that depends on the
+			// order the elements happen to be in (often that of a map iteration): yield points in there
+			// would make the number of hand-off points of a run vary. They are left out.
+			if sel, ok := x.Fun.(*ast.SelectorExpr); ok {
+				if id, ok := sel.X.(*ast.Ident); ok && id.Name == "sort" {
+					for _, a := range x.Args {
+						if _, ok := a.(*ast.FuncLit); ok {
+							return skipFuncLits(x)
+						}
+					}
+				}
+			}
 		case *ast.SwitchStmt:
 			clauseBlocks[x.Body] = true
 		case *ast.TypeSwitchStmt:
